@@ -65,7 +65,8 @@ func hookFld(ctx context.Context) []log.Field {
 	fldCalls++
 	lastFldCtx = ctx
 	hookSeq++
-	return []log.Field{log.String("cf", fmt.Sprintf("v%d", hookSeq)), log.Int("cn", hookSeq)}
+	// the last context field has the same key as the call's own id field: both are in the record
+	return []log.Field{log.String("cf", fmt.Sprintf("v%d", hookSeq)), log.Int("cn", hookSeq), log.String("id", "ctx")}
 }
 
 type levelDef struct {
@@ -341,7 +342,7 @@ func TestC10_Hooks(t *testing.T) {
 				}
 				if set[2] {
 					k++
-					wantCF = fmt.Sprintf(`{"cf":"v%d","cn":%d}`, k, k)
+					wantCF = fmt.Sprintf(`{"cf":"v%d","cn":%d,"id":"ctx"}`, k, k)
 				}
 				var line string
 				if logger == "builtin" {
